@@ -20,6 +20,12 @@ LEVEL = {
             "s*u (parallel to the direction); the applied root has the smaller magnitude and both are roots; rejected hop is a no-op; event fields. "
             "Run-level event/active-state consistency is checked on the implementation for both trace stores (oracle), its loop theorem is in C16", "7 C04", NOTE,
             "Lean 4 theorems + correspondence with gaps at 1e-13..0.3 relative distance from the threshold"),
+    "C08": ("proof", "Lean theorems for any N, n: potential = Re tr(rho H); hopping is the identity for any number of steps; mean-field force "
+            "= population term + coherence term; exact deviation of the code's force (coherence term missing), partial equality (diagonal rho or "
+            "diagonal force matrix), 2-state witness; energy balance d/dt(KE+tr rho H) = v.(F_used - F_meanfield). The pinned _force violates the "
+            "property (KNOWN FINDING, suite pins it): the model keeps both variants, the correspondence tries the mean-field force first and reports "
+            "the finding only when the code matches exactly the pinned formula; any other deviation is a VIOLATION", "7 C08", NOTE,
+            "Lean 4 theorems (Finset double sums, flux identity of C03) + dual-variant correspondence"),
     "C09": ("proof", "Lean theorems: closed form 1-(1-a)exp(-sum G) of the accumulation for any rate list, attempt iff threshold below it, first "
             "attempt = first crossing (complete spec), reset and fresh threshold, user thresholds first, inverse-CDF target slot of length g_j/G, "
             "hop-time law prod(1-p_i) p_k (Poisson equivalence), zero-rate steps never attempt. Tied to TrajectoryCum.hopper on driven sequences", "7 C09", NOTE,
@@ -35,6 +41,11 @@ LEVEL = {
             "for all n is not proved (only its post-processing); CC and the leggauss contract are tested per n (2..64 quick, ..1024 thorough) in 60-digit "
             "arithmetic. Spawn-stack tensor structure: oracle on the implementation (theorem with the SpawnStack model, C10)", "7 C18", NOTE,
             "Lean 4 theorems (Finset sums, induction on panels, Polynomial.comp + integral substitution) + correspondence for all five rules"),
+    "C19": ("proof", "Lean theorems: scaled Boltzmann momenta have kinetic energy per dof exactly kT/2 (any masses>0, T>=0, any draws with "
+            "non-zero KE); unscaled p_i = sqrt(m_i kT) z_i; normal generator deviations sigma/2 and 1/sigma, skipped iff a negative component; "
+            "SeedSequence.spawn bookkeeping: children keys pairwise distinct, prefix-stable in the number requested, never repeated by later spawns. "
+            "Normality/independence of numpy's draws is numpy's contract (stated, not proved)", "7 C19", NOTE,
+            "Lean 4 theorems (Real.sqrt algebra, list lemmas) + correspondence with recovered normal draws"),
     "C20": ("proof", "Lean theorems at R/C about the model of poisson_prob_scale (value at 0, exact closed form outside the switch, "
             "series within |x|^5/600 inside it for real and complex x, strictly decreasing on [0,inf) across the switch, range (0,1]); "
             "model tied to the code by bit-level correspondence (4e-15) on boundary-directed scalars; float accuracy of libm is partial "
